@@ -17,7 +17,7 @@ pub fn run(ctx: &mut Ctx) {
         ctx.st.count("skipped.no-seekable-type-for-this-block-size");
         return;
     }
-    let fl = *ctx.rng.pick(&fls);
+    let fl = super::common::pick_flavor(ctx, &fls);
     history(ctx, fl);
 }
 
@@ -135,6 +135,8 @@ fn history(ctx: &mut Ctx, fl: Flavor) {
             limit.saturating_sub(40 + k),
             (u128::MAX / b as u128).saturating_sub(k),
             (u128::MAX / b as u128) + 1 + k,
+            crate::wl::limb_u128(&mut ctx.rng),
+            crate::wl::limb_u128(&mut ctx.rng) % limit.max(1),
         ];
         let i = (*ctx.rng.pick(&cands)).min(limit.saturating_sub(45));
         sh = Pos { blk: i, off: 0 };
@@ -186,6 +188,8 @@ fn history(ctx: &mut Ctx, fl: Flavor) {
                     cands.push((1u128 << 64) * b as u128 - k);
                     cands.push((1u128 << 64) + k);
                 }
+                cands.push(crate::wl::limb_u128(&mut ctx.rng));
+                cands.push(crate::wl::limb_u128(&mut ctx.rng) >> 64);
                 let mut q = *ctx.rng.pick(&cands);
                 if let Some(e) = end_bytes {
                     q = q.min(e);
